@@ -10,6 +10,8 @@ repository functions, which are the same points.
 import ast
 import sys
 import threading
+from threading import Event as _Event
+from threading import Thread as _Thread  # bound now: the environment stubs patch threading.Thread
 
 from .core import Infeasible, Signal
 from .interp import Interp
@@ -45,13 +47,13 @@ class SchedLock:
 class MThread:
     def __init__(self, sched, tid, name, body):
         self.sched, self.tid, self.name, self.body = sched, tid, name, body
-        self.go = threading.Event()
+        self.go = _Event()
         self.done = False
         self.exc = None
         self.signal = None
         self.blocked_on = None
         self.started = False
-        self.thread = threading.Thread(target=self._run, daemon=True)
+        self.thread = _Thread(target=self._run, daemon=True)
         self.call = None
 
     def _run(self):
@@ -77,7 +79,7 @@ class Sched:
         self.w = w
         self.budget = budget
         self.threads = []
-        self.back = threading.Event()
+        self.back = _Event()
         self.trace = []
         self.abort = False
         self.current = None
